@@ -87,6 +87,7 @@ static inline int line_loop(const std::function<std::string(const std::string&)>
   char* line = nullptr;
   size_t cap = 0;
   ssize_t n;
+  const bool flush_each = getenv("VH_FLUSH") != nullptr;   // used to locate the op a sanitizer abort happened in
   while ((n = getline(&line, &cap, stdin)) >= 0) {
     std::string l(line, size_t(n));
     while (!l.empty() && (l.back() == '\n' || l.back() == '\r' || l.back() == ' ')) l.pop_back();
@@ -96,6 +97,7 @@ static inline int line_loop(const std::function<std::string(const std::string&)>
     if (l.empty() || l[0] == '#') continue;
     std::string o = step(l);
     if (!o.empty()) { fputs(o.c_str(), stdout); fputc('\n', stdout); }
+    if (flush_each) fflush(stdout);
   }
   free(line);
   fflush(stdout);
